@@ -241,6 +241,30 @@ pub fn minimise(episodes: &[Episode], v: &Violation, pristine: &str) -> (Vec<Epi
                 cur = cand;
             }
         }
+        // 2g'. shorter bursts
+        for t in 0..cur[ei].tasks.len() {
+            for oi in 0..cur[ei].tasks[t].len() {
+                loop {
+                    let n = match &cur[ei].tasks[t][oi].op {
+                        super::Op::Burst { n, .. } | super::Op::RenderBurst { n, .. } => *n,
+                        _ => break,
+                    };
+                    if n <= 2 {
+                        break;
+                    }
+                    let mut cand = cur.clone();
+                    match &mut cand[ei].tasks[t][oi].op {
+                        super::Op::Burst { n, .. } | super::Op::RenderBurst { n, .. } => *n /= 2,
+                        _ => {}
+                    }
+                    if s.still_fails(&cand) {
+                        cur = cand;
+                    } else {
+                        break;
+                    }
+                }
+            }
+        }
         // 2g. operand simplification: shorter inputs
         for i in 0..cur[ei].inputs.len() {
             while cur[ei].inputs[i].len() > 1 {
